@@ -973,3 +973,13 @@ for _p in ("C10", "C14", "C03"):
 _U62 = " Start-up order (Verus, fragment of Db::open_inner): the free-entry stacks and reference-count caches (Column::init_table_data) are built after every pending log was replayed into the table files and before the handle is shared -- built earlier they would miss what only the write-ahead log held."
 for _p in ("C10", "C14", "C03"):
     PROPS[_p]["claim"] = PROPS[_p]["claim"] + _U62
+
+# ---------------------------------------------------------------- U61 (Kani on a real Log: reclamation order of enacted log files)
+for (_nf, _mc) in ((2, 2), (2, 1), (3, 2), (3, 8)):
+    M_LOG.harnesses.append(H("u61_clean_logs_f%d_m%d" % (_nf, _mc), "U61", kind="bounded", tiers=("quick", "thorough") if (_nf, _mc) in ((2, 2), (3, 2)) else ("thorough",),
+                             shape="Log::clean_logs on %d enacted log files, max_count %d, fsync failing at an arbitrary call" % (_nf, _mc), bound="two or three queued files, empty pool, max_count 1 / 2 / 8; ftruncate / fsync / lseek / close by contract (recorders)"))
+UNIT_META["U61"] = {"functions": ["log::Log::clean_logs"], "assumes": ["File::{set_len, sync_all}, <File as Seek>::seek and close(2) replaced by recorders keyed by descriptor; the failing fsync stands for the point where the process stops", "Log::drop_log (remove_file) replaced by a recorder"]}
+for _p in ("C03", "C12"):
+    PROPS[_p]["kani_units"] = list(PROPS[_p]["kani_units"]) + ["U61"]
+    PROPS[_p]["claim"] = PROPS[_p]["claim"] + " Log::clean_logs (Kani, bounded: two or three enacted files) empties enacted log files oldest first and never more than asked for, so wherever reclamation stops the files still on disk are a suffix of the log -- replay numbers records consecutively and discards everything behind a hole; files not reclaimed stay queued, none is deleted while the pool has room."
+PROPS["C12"]["does_not_cover"] = [x for x in PROPS["C12"]["does_not_cover"] if "Log::clean_logs" not in x]
